@@ -109,9 +109,14 @@ pub struct World {
     /// C08 (closed-loop peer only): end offsets of the records that owe a reply, in wire order; checked at every
     /// suspension on the transport read.
     pub owed_triggers: Vec<usize>,
+    /// If non-empty: the suspension invariant is evaluated only when the bytes read so far end at one of these
+    /// offsets (record boundaries of the client's script) - for peers that send further records behind a query.
+    pub rec_bounds: Vec<usize>,
     pub suspend_violation: Option<(String, String)>,
     pub empty_buf_reads: usize,
     pub force_propagate: bool,
+    /// Pipelining scenario: every handler ends having read its final input stream to end-of-file.
+    pub read_everything: bool,
     /// Kind of the injected read error (chosen per script).
     pub read_err_kind: io::ErrorKind,
     pub read_error_fired: bool,
@@ -137,7 +142,7 @@ impl World {
             wfault: WFault::None, write_calls: 0, write_failed_at: None, writes_after_failure: 0, write_dropped: false, lock_held_pending: false,
             end_requests: 0, replies_seen: 0, handler_log: Vec::new(), shutdown_requested_at_step: None, step: 0,
             current_poll_started_after_shutdown: false,
-            owed_triggers: Vec::new(), suspend_violation: None, empty_buf_reads: 0, force_propagate: false, idle_at_shutdown: false, read_err_kind: io::ErrorKind::ConnectionReset, read_error_fired: false, reads_after_read_error: 0, retry_failed_writes: false,
+            owed_triggers: Vec::new(), rec_bounds: Vec::new(), suspend_violation: None, empty_buf_reads: 0, force_propagate: false, read_everything: false, idle_at_shutdown: false, read_err_kind: io::ErrorKind::ConnectionReset, read_error_fired: false, reads_after_read_error: 0, retry_failed_writes: false,
         }
     }
 
@@ -226,7 +231,7 @@ impl AsyncRead for SimRead {
                 return Poll::Ready(Ok(0));
             }
             w.read_waker = Some(cx.waker().clone());
-            if !w.owed_triggers.is_empty() && w.suspend_violation.is_none() {
+            if !w.owed_triggers.is_empty() && w.suspend_violation.is_none() && (w.rec_bounds.is_empty() || w.rec_bounds.binary_search(&w.read_pos).is_ok()) {
                 w.cx.probe("suspension_points_checked");
                 let rp = w.read_pos;
                 let owed = w.owed_triggers.iter().filter(|&&t| t <= rp).count();
